@@ -52,6 +52,11 @@ DEV_TYPE = z3.Function("torch_device_type", STR, STR)
 DEV_HAS_INDEX = z3.Function("torch_device_has_index", STR, BOOL)
 DEV_INDEX = z3.Function("torch_device_index", STR, INT)
 NONE_ID = z3.Int("value_id_None")
+# iteration order of a dict in state t (TRUSTED): its keys are KEYAT(t, 0) .. KEYAT(t, NKEYS(t)-1); every listed key is present,
+# every present key e is listed at position KIDX(t, e)
+NKEYS = z3.Function("dict_len", TREE, INT)
+KEYAT = z3.Function("dict_key_at", TREE, INT, STR)
+KIDX = z3.Function("dict_key_index", TREE, STR, INT)
 
 MAX_PARTS = 3
 LEAF, DICT = 1, 2
@@ -145,6 +150,18 @@ def validate_string_facts(max_len=4, alphabet="a-_."):
     return n, bad
 
 
+def present_t(t, key):
+    k = KF(t)[sterm(key)]
+    return z3.Or(k == LEAF, k == DICT)
+
+
+def key_listed_facts(t, e):
+    """A present key occurs in the iteration order (ground instance for key e)."""
+    e = sterm(e)
+    i = KIDX(t, e)
+    return [z3.Implies(present_t(t, e), z3.And(i >= 0, i < NKEYS(t), KEYAT(t, i) == e)), NKEYS(t) >= 0]
+
+
 def assume_str(ctx, t):
     for f in string_facts(t):
         ctx.assume(f)
@@ -224,6 +241,7 @@ class DictRoot:
         self.name = name
         self.writes = 0
         self.stored = False
+        self.handles = []  # live handles below the root (so that overwriting an entry detaches the handles into it)
 
 
 class SymDict:
@@ -234,6 +252,26 @@ class SymDict:
     def __init__(self, root, path=()):
         self.root = root
         self.path = tuple(path)
+        if self.path:
+            root.handles.append(self)
+
+    def detach_below(self, kt):
+        """The entry `kt` of this dict is about to be overwritten / removed: handles into the old nested dict keep denoting that
+        (now detached) dict object - they get their own root holding its current state."""
+        prefix = self.path + (kt,)
+        n = len(prefix)
+        hs = [h for h in self.root.handles
+              if h.root is self.root and len(h.path) >= n and all(a.get_id() == b.get_id() for a, b in zip(h.path[:n], prefix))]
+        if hs:
+            t = self.root.tree
+            for k in prefix:
+                t = CF(t)[k]
+            newroot = DictRoot(t, "detached")
+            for h in hs:
+                self.root.handles.remove(h)
+                h.root, h.path = newroot, h.path[n:]
+                if h.path:
+                    newroot.handles.append(h)
 
     def __repr__(self):
         return f"SymDict({self.root.name}{''.join('[' + str(k) + ']' for k in self.path)})"
@@ -287,6 +325,7 @@ class SymDict:
         """d[key] = value"""
         self.check_live(ctx)
         kt = sterm(key)
+        self.detach_below(kt)
         t = self.tree()
         t2 = z3.Const(ctx.fresh_name("tree"), TREE)
         if isinstance(value, (SymDict, ItemsMap)) and getattr(value, "external", False):
@@ -309,6 +348,16 @@ class SymDict:
     def clear(self, ctx):
         self.check_live(ctx)
         self._install(ctx, EMPTY)
+
+    def remove(self, ctx, key):
+        """del d[key] (the key becomes absent; scalar identity / nested state left behind are unobservable)."""
+        self.check_live(ctx)
+        kt = sterm(key)
+        self.detach_below(kt)
+        t = self.tree()
+        t2 = z3.Const(ctx.fresh_name("tree"), TREE)
+        ctx.assume(z3.And(KF(t2) == z3.Store(KF(t), kt, 0), LF(t2) == LF(t), CF(t2) == CF(t)))
+        self._install(ctx, t2)
 
     def lookup(self, interp, key):
         """d[key]: nested dict handle, Leaf, or KeyError."""
@@ -599,6 +648,32 @@ def install(reg):
 
     reg.setitem_models[ItemsMap] = setitem_items
 
+    # ---- iteration over the keys (symbolic loop: needs a LoopSpec in the function under contract)
+    def iter_dict(interp, d):
+        ctx = interp.ctx
+        d.check_live(ctx)
+        t = d.tree()
+        ctx.assume(NKEYS(t) >= 0)
+
+        def getter(k):
+            kt = KEYAT(t, lift(k))
+            ctx.assume(z3.Implies(z3.And(lift(k) >= 0, lift(k) < NKEYS(t)), present_t(t, kt)))
+            assume_str(ctx, kt)
+            return Sym(kt)
+
+        return Sym(NKEYS(t)), getter
+
+    if not hasattr(reg, "iter_models"):
+        reg.iter_models = {}
+    reg.iter_models[SymDict] = iter_dict
+
+    def m_reversed(interp, xs):
+        if isinstance(xs, (list, tuple)):
+            return list(reversed(xs))
+        return interp.native(reversed, xs)
+
+    M[reversed] = m_reversed
+
     # ---- attributes / methods
     def attr_dict(interp, d, name):
         ctx = interp.ctx
@@ -615,6 +690,26 @@ def install(reg):
                         return default
                     raise
             return _fn(get)
+        if name == "setdefault":
+            def setdefault(key, default=None):
+                if not is_strlike(key):
+                    raise OutOfSubset("non-string configuration key")
+                if not ctx.branch(d.present(key)):
+                    d.store(ctx, key, default)
+                return d.lookup(interp, key)
+            return _fn(setdefault)
+        if name == "pop":
+            def pop(key, *default):
+                if not is_strlike(key):
+                    raise OutOfSubset("non-string configuration key")
+                if ctx.branch(d.present(key)):
+                    old = d.lookup(interp, key)
+                    d.remove(ctx, key)
+                    return old
+                if default:
+                    return default[0]
+                raise RaiseSig(KeyError("<key>"))
+            return _fn(pop)
         if name in ("items", "keys", "values", "__iter__", "__len__"):
             raise OutOfSubset(f"dict.{name}() on a dict with symbolic key set")
         raise OutOfSubset(f"dict.{name} is not modelled")
@@ -636,6 +731,8 @@ def install(reg):
     reg.attr_models[ItemsMap] = attr_items
 
     def attr_leaf(interp, leaf, name):
+        if name in ("pop", "setdefault", "get", "items", "keys", "clear", "update"):
+            raise RaiseSig(AttributeError(f"scalar configuration value has no attribute {name!r}"))  # scalars are not containers
         raise OutOfSubset(f"attribute {name} of an opaque configuration value")
 
     reg.attr_models[Leaf] = attr_leaf
